@@ -64,3 +64,16 @@ func Dump(s *StateMachine) (uint64, []SessionView) { return s.VerifC05Dump() }
 
 // NewMemFS returns the in-memory file system of internal/vfs.
 func NewMemFS() IFS { return vfs.NewMemFS() }
+
+// NewConcurrentSM wraps a user IConcurrentStateMachine the way the node host does.
+func NewConcurrentSM(cfg config.Config, u sm.IConcurrentStateMachine, done <-chan struct{}) IManagedStateMachine {
+	return rsm.NewNativeSM(cfg, rsm.NewConcurrentStateMachine(u), done)
+}
+
+// SaveStep1 / SaveStep2: the two steps of concurrentSave as separate calls.
+func SaveStep1(s *StateMachine, r SSRequest) (SSMeta, error) { return s.VerifC05SaveStep1(r) }
+
+// SaveStep2 is the second step of concurrentSave (sync + doSave).
+func SaveStep2(s *StateMachine, meta SSMeta) (pb.Snapshot, SSEnv, error) {
+	return s.VerifC05SaveStep2(meta)
+}
